@@ -364,6 +364,11 @@ func (mw *msgWriter) addFiles(files []*File, isAttachment bool) {
 				file.setHeader(HeaderContentID, fmt.Sprintf("<%s>", sanitizeFilename(file.Name)))
 			}
 		}
+		// A Content-ID given via WithFileContentID is stored verbatim; line breaks in it
+		// must not reach the header block
+		if contentID, ok := file.getHeader(HeaderContentID); ok && strings.ContainsAny(contentID, "\r\n") {
+			file.setHeader(HeaderContentID, strings.NewReplacer("\r", "", "\n", "").Replace(contentID))
+		}
 		if mw.depth == 0 {
 			for header, val := range file.Header {
 				mw.writeHeader(Header(header), val...)
@@ -423,7 +428,8 @@ func (mw *msgWriter) writePart(part *Part, charset Charset) {
 	if mw.depth > 0 {
 		mimeHeader := textproto.MIMEHeader{}
 		if part.description != "" {
-			mimeHeader.Add(string(HeaderContentDescription), part.description)
+			mimeHeader.Add(string(HeaderContentDescription),
+				mw.encoder.Encode(mw.charset.String(), part.description))
 		}
 		mimeHeader.Add(string(HeaderContentTransferEnc), contentTransferEnc)
 		mimeHeader.Add(string(HeaderContentType), contentType)
